@@ -237,6 +237,11 @@ def _kpm_case(rng, counters):
     vA = V[:, :ka]
     atol = float(rng.choice([1e-4, 1e-6]))
     opts = {"atol": atol}
+    starved = rng.random() < 0.25
+    if starved:
+        # too few moments for the requested accuracy: the solver must warn (or still be accurate)
+        opts = {"atol": 1e-10, "max_moments": 40}
+        atol = 1e-10
     aux = rng.random() < 0.4
     if aux:
         opts["auxiliary_vectors"] = V[:, ka:ka + 2]
@@ -265,6 +270,7 @@ def _kpm_case(rng, counters):
     counters["kpm_calls"] += 1
     counters["kpm_with_aux"] += int(aux)
     counters["kpm_warned"] += int(warned)
+    counters["kpm_starved"] += int(starved)
     return True, ["kpm", N, cplx, ka, atol, aux], dict(kind="kpm", N=N, complex=cplx, atol=atol, aux=aux, residual=rn, bound=bound)
 
 
@@ -333,7 +339,7 @@ def run_case(spec):
 def finalize(c, tier, evaluations, distinct):
     reasons = []
     need = dict(sylvester_dense=500, sylvester_sparse=100, sylvester_sympy=100, sylvester_direct_right=100, sylvester_direct_left=30,
-                sylvester_direct_complex=30, greens_calls=300, greens_degenerate_kernel=30, kpm_calls=30, direct_degenerate=10,
+                sylvester_direct_complex=30, greens_calls=300, greens_degenerate_kernel=30, kpm_calls=30, kpm_warned=3, direct_degenerate=10,
                 diag_sparse_noise_at_degenerate=5, diag_levels_equal_within_atol=20, diag_sparse_explicit_zero_at_degenerate=5, bd_implicit_runs=30, direct_real_h0_complex_rhs=5)
     for k, v in need.items():
         if c.get(k, 0) < v:
